@@ -652,3 +652,103 @@ func TestBoundarySizes(t *testing.T) {
 		sub.Case(vf.Digest(sub.Seed(i)), true)
 	}
 }
+
+// ---- oversized updates after a peer crashed ---------------------------------------------------------
+
+// TestOversizedAfterPeerCrash: three joined peers; one is stopped the way a killed process stops (no
+// leave announced). While it is still listed as a member, and again after the others have noticed, the
+// survivors keep exchanging oversized updates (sent to every listed peer over the reliable channel: the
+// send to the dead one fails). "Every update broadcast by an instance is merged by every instance that
+// stays connected to it."
+func TestOversizedAfterPeerCrash(t *testing.T) {
+	run := vf.Cur()
+	sub := run.Sub("oversized-after-peer-crash", "three real peers on loopback (push/pull 1 h); one is shut down without a leave; an oversized silence update (about 1.5 kB) is made on a survivor at once (the dead peer is still a listed member, the reliable send to it fails), two more after 200 ms and 1 s, and three more after the survivors have dropped the dead peer from their member lists; every update must be visible on the other survivor within 10 s (a miss must reproduce on 3 runs); non-trivial = every case; distinct by (seed)", 1)
+	n := run.N(2, 20)
+	for i := 0; i < n; i++ {
+		reproduced := 0
+		var lastMiss []string
+		for try := 0; try < 3; try++ {
+			var nodes []*node
+			ok := true
+			for k := 0; k < 3; k++ {
+				var join []string
+				if k > 0 {
+					join = []string{nodes[0].addr()}
+				}
+				nd, err := startNode(fmt.Sprintf("oc%d-%d-%d", i, try, k), join, time.Hour)
+				if err != nil {
+					sub.Inconclusive(err.Error())
+					ok = false
+					break
+				}
+				nodes = append(nodes, nd)
+			}
+			if !ok || !waitMembers(nodes, 3) {
+				for _, nd := range nodes {
+					nd.stop()
+				}
+				if ok {
+					sub.Inconclusive("cluster did not form within the watchdog")
+				}
+				return
+			}
+			a, b, dead := nodes[0], nodes[1], nodes[2]
+			if i%2 == 1 {
+				a, b = b, a
+			}
+			dead.peer.VerifCrash()
+			type up struct{ id, comment, when string }
+			var ups []up
+			mk := func(when string) {
+				now := time.Now()
+				comment := fmt.Sprintf("oc-%s-", when) + strings.Repeat("y", 1400)
+				s := silh.NewSilence("", [][]model.Matcher{{{Name: "alertname", Op: "=", Value: "A"}}}, now, now.Add(30*time.Minute), comment)
+				if err := a.sil.Set(context.Background(), s); err != nil {
+					t.Fatal(err)
+				}
+				ups = append(ups, up{s.Id, comment, when})
+			}
+			mk("at once")
+			time.Sleep(200 * time.Millisecond)
+			mk("after 200ms")
+			time.Sleep(800 * time.Millisecond)
+			mk("after 1s")
+			// until the survivors have dropped the dead peer
+			waitFor(20*time.Second, func() bool { return a.peer.ClusterSize() == 2 && b.peer.ClusterSize() == 2 })
+			shrunk := a.peer.ClusterSize() == 2 && b.peer.ClusterSize() == 2
+			for k := 0; k < 3; k++ {
+				mk(fmt.Sprintf("after the failure was detected #%d", k))
+				time.Sleep(100 * time.Millisecond)
+			}
+			miss := func() []string {
+				var out []string
+				for _, u := range ups {
+					if !b.hasSilence(u.id, u.comment) {
+						out = append(out, u.when)
+					}
+				}
+				return out
+			}
+			waitFor(10*time.Second, func() bool { return len(miss()) == 0 })
+			missing := miss()
+			sub.Count("oversized_updates", int64(len(ups)))
+			if shrunk {
+				sub.Count("runs_in_which_the_failure_was_detected", 1)
+			}
+			a.stop()
+			b.stop()
+			if len(missing) == 0 {
+				reproduced = -1
+				break
+			}
+			reproduced++
+			lastMiss = missing
+		}
+		if reproduced >= 3 {
+			sub.Violation("oversized-update-not-delivered-to-a-connected-peer-after-another-peer-crashed", map[string]any{"updates_never_delivered": lastMiss, "runs": 3})
+		} else if reproduced >= 0 {
+			sub.Inconclusive(fmt.Sprintf("oversized updates missed in some but not all of 3 runs: %v", lastMiss))
+		}
+		sub.Case(vf.Digest(sub.Seed(i)), true)
+	}
+}
